@@ -7,8 +7,8 @@ use std::collections::BTreeSet;
 pub fn n_cases(prop: &str, tier: &str) -> usize {
     let quick = tier == "quick";
     match prop {
-        "C04" => if quick { 96 } else { 3000 },
-        "C05" => if quick { 156 } else { 6000 },
+        "C04" => if quick { 96 } else { 6000 },
+        "C05" => if quick { 156 } else { 8008 },
         _ => 0,
     }
 }
